@@ -18,6 +18,10 @@ CHECKS = {
    technique="static analysis: CFG rules over SlotChain::add_*/entry/exit and EntryBuilder::build (push-then-sort on one field keyed by order(), phase reachability, loop-exit analysis, dominance of the verdict store, decision tables for the notification and Blocked->Err mapping)",
    text="Decides on every path of the chain's own code: each add_* sorts the vector it pushed to by order(), and that vector is the one iterated for the role; the three phases cannot interleave; each loop walks the whole vector front to back (check loop may stop only after a block); the verdict is reset before checking and overwritten only by a slot's own blocked return; each stat slot gets exactly the notification matching the verdict; on_completed runs iff not blocked; build maps Blocked to Err after exiting. This covers all chain shapes and slot results at once because the code under analysis is the chain, not the slots.",
    note="Trusts std sort_by_key (ascending) and slice::Iter order; custom slots that overwrite the context verdict themselves are outside the statement's quantifier."),
+ "C04": dict(
+   technique="static analysis: who-may-call over the whole-crate call graph (CHA for dyn slot calls), effect-sequence decision tables of the recorder callbacks, single-RMW rule on the in-flight counter; thorough adds must-pass-through of exit() in the examples' macro-generated wrappers",
+   text="Decides that the in-flight counter is raised only from pass callbacks and lowered only from completion callbacks, that each ResourceNodeStatSlot callback records exactly its counters (with the batch count / response time as the count) on the entry's node and mirrors them on the inbound node iff the entry is inbound, on every path, and that the counter itself moves by single +1/-1 RMWs. Together with C13's chain rules (one of pass/blocked per entry; completion iff passed; build exits blocked entries) this is the pass-xor-block / inc-dec pairing; totals over histories are not computed.",
+   note="Closed world of the analysed crate; custom external StatSlots unconstrained; depends on C13's rules holding."),
 }
 NOT_APPLICABLE = {("C%02d" % i): PENDING for i in range(1, 21) if ("C%02d" % i) not in CHECKS}
 NOT_APPLICABLE["C08"] = "numerical trajectory over runtime values (ramp shape, 2p+2 s bound); no structural clause is a necessary condition of the stated bounds (DESIGN.md §3 C08)"
